@@ -13,6 +13,7 @@ import itertools
 from core import fseq, fseqs, fbool, pseq, guarded, ferr
 
 PROP = "C02"
+SHRINK_SEP = "|"
 RULE = ("histories of class constructions, queries and partially consumed iterators; exhaustive family: every basis of 1-2 "
         "patterns of length<=3 x every order of 3 query lengths in 0..6; random histories of <=30 ops over <=3 live classes "
         "(equal bases given in different orders/with redundant elements, from_string 0-/1-based, clear_cache, mesh bases) with "
